@@ -97,6 +97,14 @@ class TSBurstDetector(Elaboratable):
         ctrl  = self.sink.ctrl
 
 
+        # A word that fails to continue a set can itself be the first word of the next set.
+        starts_new_set = (data == self._set_data[0]) & (ctrl == self._first_word_ctrl)
+
+        def restart_on_first_word():
+            with m.If(starts_new_set):
+                m.d.ss += consecutive_set_count.eq(0)
+                m.next = "1_DETECTED"
+
         def advance_on_match(count, target_ctrl=0b0000, fail_state="NONE_DETECTED"):
             data_matches = (data == self._set_data[count])
             ctrl_matches = (ctrl == target_ctrl)
@@ -109,6 +117,8 @@ class TSBurstDetector(Elaboratable):
                     m.next = f"{count + 1}_DETECTED"
                 with m.Else():
                     m.next = fail_state
+                    if count != 0:
+                        restart_on_first_word()
 
 
         last_state_number = len(self._set_data)
@@ -119,6 +129,10 @@ class TSBurstDetector(Elaboratable):
             with m.State("NONE_DETECTED"):
                 m.d.ss += consecutive_set_count.eq(0)
                 m.next = "WAIT_FOR_FIRST"
+
+                # Don't lose a set whose first word arrives while we're clearing our count.
+                with m.If(self.sink.valid & starts_new_set):
+                    m.next = "1_DETECTED"
 
             # WAIT_FOR_FIRST -- we're waiting to see the first word of our sequence
             with m.State("WAIT_FOR_FIRST"):
@@ -161,6 +175,7 @@ class TSBurstDetector(Elaboratable):
 
                     with m.Else():
                         m.next = "NONE_DETECTED"
+                        restart_on_first_word()
 
 
             for i in range(2, last_state_number):
